@@ -20,6 +20,7 @@ mod c08;
 mod c09;
 mod c10;
 mod c19;
+mod c20;
 mod common;
 mod dbg;
 mod c11;
@@ -102,6 +103,12 @@ fn main() {
         "C11" => c11::run(&mut ctx),
         "C12" => c12::run(&mut ctx),
         "C19" => c19::run(&mut ctx),
+        "C20" => c20::run(&mut ctx),
+        "C20child" => {
+            let (mode, case) = ctx.replay.clone().expect("C20child needs --replay mode:case");
+            c20::child(ctx.seed, case, mode == "verbose");
+            return;
+        }
         "C13" => c13::run(&mut ctx),
         "C14" => c14::run(&mut ctx),
         "C15" => c15::run(&mut ctx),
